@@ -32,7 +32,7 @@ ENTRY_POINTS = {
     "partlist": ("DataPath.from_part_specs",),
     "rule": ("Rule.from_spec", "Rule.from_json_like"),
     "rules": ("Schema.from_json_like", "Schema.init_rules"),
-    "yaml": ("Schema.from_yaml",),
+    "yaml": ("Schema.from_yaml", "Schema.from_yaml_file"),
 }
 
 
@@ -59,6 +59,18 @@ def parse(entry, spec):
         return Schema(Schema.init_rules(spec))
     if entry == "Schema.from_yaml":
         return Schema.from_yaml(spec)
+    if entry == "Schema.from_yaml_file":
+        # valida's only I/O seam: the text goes through a real file
+        import os
+        import tempfile
+
+        fd, path = tempfile.mkstemp(prefix="valida_dst_", suffix=".yaml")
+        try:
+            with os.fdopen(fd, "w") as fh:
+                fh.write(spec)
+            return Schema.from_yaml_file(path)
+        finally:
+            os.unlink(path)
     raise ValueError(entry)
 
 
